@@ -398,6 +398,9 @@ func (s *EtcdStore) UpdateTopicConfig(ctx context.Context, cfg *metadatapb.Topic
 
 // CreatePartitions expands a topic and writes new partition state entries.
 func (s *EtcdStore) CreatePartitions(ctx context.Context, topic string, partitionCount int32) error {
+	if topic == "" || partitionCount <= 0 {
+		return ErrInvalidTopic
+	}
 	var newPartitions []protocol.MetadataPartition
 	err := s.updateSnapshot(ctx, func() error {
 		meta, err := s.metadata.Metadata(ctx, []string{topic})
